@@ -41,7 +41,8 @@ class Prop:
                "two binds sending and receiving synchronously reuse the pooled message vectors and every receive call returns exactly "
                "the outstanding datagrams; the same send loop with a limited writer forwarding to the real socket (partial writes), and the "
                "public Send of a bind whose first sendmmsg fails with EIO (GSO disabled, batch resent from the pooled vector): the plain "
-               "socket still sees the batch; validates UdpGso.KernelSpec and the glue around the modelled core)"]
+               "socket still sees the batch; ONE dual-stack bind sending to alternating 127.0.0.1 / ::1 / second local IPv6 destinations from one "
+               "goroutine (pooled destination address reused): every datagram arrives at its own destination; validates UdpGso.KernelSpec and the glue around the modelled core)"]
     rule = ("send vectors from one PRNG: equal/shrinking/growing runs, size 1, wireguard-like sizes, runs of 63..66 and 127/128 "
             "equal datagrams, totals crossing the 65507/65527 maximum, capacity exhaustion (cap = len + k*size), short tail then "
             "continuing, control buffer too small, v4/v6, with/without sticky source; receive vectors: GRO trains in receiveIP's "
@@ -289,6 +290,11 @@ class Prop:
     # ---- classification ---------------------------------------------------------------------
     def signature(self, case, f):
         k = case.get("kind")
+        if k == "loopback" and str(case.get("pass", "")).startswith("dual_"):
+            sc = case.get("script") or []
+            if len(sc) >= 2 and sc[-1]["from"] in (1, 2) and any(st["from"] == 0 for st in sc[:-1]):
+                return "dualstack-v6-after-v4-wrong-destination"
+            return "dualstack-datagram-not-delivered-to-its-destination"
         if k == "loopback":
             return "loopback-%s-%s-batch-not-delivered-intact" % (case.get("family"), case.get("pass"))
         if k == "send":
